@@ -104,6 +104,10 @@ def run_shard(args):
                 out["violations"].append({"kind": "second-run-reports-create-fix-trim", "detail": {"flags": bad, "sites": sites_bad[:4], "after_run1": after1.decode()[:2500]}, "witness": wit, "finding": None})
             else:
                 C["second_run_update_only_flags"] += 1
+                if "update" in r2.flags_reported:
+                    # "shows no pending diff": after a run that approved update as well nothing may be pending
+                    sites_upd = [s for s in r2.sites if "update" in s.get("flags", [])]
+                    out["violations"].append({"kind": "second-run-still-has-a-pending-update", "detail": {"sites": sites_upd[:4], "after_run1": after1.decode()[:2500]}, "witness": wit, "finding": None})
             ev = r2.logs.get("test_a.py", [])
             notok = [e for e in ev if not (e[1] == "ok" and e[3] is True)]
             if notok or r2.missing or r2.incorrect:
